@@ -45,6 +45,12 @@ func c15Gen(seed uint64, tier string) any {
 		if d.Max > 1<<20 {
 			d.Max = 1 << 20
 		}
+		if d.Min < -(1 << 20) {
+			d.Min = -(1 << 20)
+		}
+		if d.Max < -(1 << 20) {
+			d.Max = -(1 << 20)
+		}
 		d.Via, d.Source = "vm", "pcg"
 		if d.HasMin && d.HasMax {
 			if r.Bool() {
